@@ -32,8 +32,10 @@ MM_FUNCS = [CLS + f for f in (
 class PropertyDef:
 
   def __init__(self, pid, level, targets, trusted, assumptions, text,
-               design_ref, level_note, monitor=True, ignored_regions=()):
+               design_ref, level_note, monitor=True, ignored_regions=(),
+               lean=()):
     self.ID = pid
+    self.LEAN = tuple(lean)
     self.LEVEL = level
     self._targets = targets
     self.TRUSTED = trusted
@@ -171,18 +173,28 @@ define(
      ('tbrmmdiagnostics', None, False), ('tbrmmscore', None, False),
      ('tbrmmdesign', None, False), mm(MM_FUNCS)],
     ENGINE_TRUST + PANDAS_TRUST + [
-        'library calls do not raise when their ledger preconditions hold'],
+        'library calls do not raise and terminate when their ledger '
+        'preconditions hold',
+        'termination of the greedy while loop uses two instances of the '
+        'finite-set ranking lemma (rank = number of candidate control groups '
+        'scoring strictly lower; bounded and strictly monotone along the '
+        'score order), proved in mmverif/lean/Rank.lean; its application '
+        'treats score entries as reals (no NaN)'],
     ['C09 precondition: analysis window >= n_test + 3 dates, correlations '
      'strictly inside (-1, 1)'],
     'Every partial operation (division, pop, subscripts, dict keys, '
     'int(None), unpacking, .loc labels, fancy indices) in the contract-covered '
-    'functions of the exhaustive search path generates a safety obligation, '
-    'and every raise site is checked against the declared exception set '
-    '(ValueError only); all are discharged.  Termination: all loops of the '
-    'exhaustive path are for-loops over finite sequences.  The greedy search '
-    'is covered by the bounded monitor.',
+    'functions of both search paths generates a safety obligation, and every '
+    'raise site is checked against the declared exception set (ValueError '
+    'only); all are discharged.  Termination: every for-loop runs over a '
+    'finite sequence/set/range; the greedy while loop has the lexicographic '
+    'variant (treatment sizes left, matching pending, RANK_MAX - rank of the '
+    'current control group\'s score), whose decrease is an obligation on '
+    'every back edge.  Degenerate inputs are also run by the bounded monitor '
+    '(with a per-search time limit, so a non-terminating search is reported, '
+    'not waited for).',
     'DESIGN.md section 7, C09',
-    'Proof part modulo ledger/engine; greedy bounded.')
+    'Proof modulo ledger/engine and floats-as-reals.', lean=('Rank.lean',))
 
 define(
     'C10', 'proof',
